@@ -1004,6 +1004,7 @@ func FamilyPool(r *Runner) {
 		}
 	}
 
+	cancelAtTick(r)
 	// RunSequencer under virtual time
 	for _, stop := range []string{"cancel", "sunset", "fatal-cas", "fatal-clock"} {
 		for _, ps := range []int{0, 2} {
@@ -1073,6 +1074,59 @@ func FamilyPool(r *Runner) {
 				return nil
 			})
 		}
+	}
+}
+
+// cancelAtTick: the sequencer is cancelled while a round is in flight and the next
+// tick is already due, so that RunSequencer's select finds both the tick and the
+// cancellation ready (it picks one at random: several repetitions). A submission
+// that arrived during the round must get its outcome whichever branch is taken.
+func cancelAtTick(r *Runner) {
+	for rep := 0; rep < 6; rep++ {
+		r.Scenario(fmt.Sprintf("pool/runsequencer/cancel-at-tick/%d", rep), false, func(w *World) error {
+			a, err := Setup(w, 0, 0)
+			if err != nil {
+				return err
+			}
+			ctx, cancel := context.WithCancel(context.Background())
+			defer cancel()
+			done := w.Go("sequencer", func() error { return a.RunSequencer(ctx, time.Hour) })
+			s1 := w.SubmitDriven(a, w.SynthEntry("ct1", false, "X"), false)
+			w.Quiesce()
+			time.Sleep(61 * time.Minute) // the first tick: a round starts and parks at its first operation
+			op := w.DriveUntil(done, func(p []*Op) *Op {
+				for _, o := range p {
+					if o.Kind == "Upload" && KeyClass(o.Key) == "checkpoint" {
+						return o
+					}
+				}
+				return nil
+			})
+			if op == nil {
+				return fmt.Errorf("no checkpoint upload")
+			}
+			s2 := w.SubmitDriven(a, w.SynthEntry("ct2", false, "X"), false) // waits in the new pool
+			w.Quiesce()
+			time.Sleep(2 * time.Hour) // the next tick is due while the round is still in flight
+			cancel()
+			w.Release(op, OK)
+			for i := 0; i < 100 && !w.IsDone(done); i++ {
+				w.Settle()
+				p := w.PendingOf(a)
+				if len(p) == 0 {
+					break
+				}
+				w.Release(p[0], OK)
+			}
+			w.Settle()
+			if !w.IsDone(done) {
+				return fmt.Errorf("sequencer did not stop")
+			}
+			time.Sleep(time.Hour)
+			w.Settle()
+			w.Check("allDone", s1, s2)
+			return nil
+		})
 	}
 }
 
